@@ -107,7 +107,7 @@ def main(tier, replay):
         need = ["pipe:1", "pipe:0", "headpump:1", "powerpump:1", "PRV:2", "PSV:2", "FCV:2", "TCV:2", "PRV:1", "FCV:1"]
         missing = [k for k in need if not st.get(k)]
         if missing:
-            raise common.MachineryError("vacuity: no sample for (type:status) %s" % missing)
+            ck.vacuity("vacuity: no sample for (type:status) %s" % missing)
     hyd.finish_cov(ck, good, "random networks (netgen) plus single-link law probes: pipes of either orientation with flows of "
                    "both signs and around zero in both Hazen-Williams modes, 1/2/3-point head pumps and power pumps swept along "
                    "their curve, PRV/PSV/FCV/TCV with initial status active/open/closed; every link x reported row is a clause "
